@@ -28,6 +28,8 @@ pub struct C10;
 pub enum Op {
     NewVar(Vec<i32>),
     NewLit,
+    /// `new_literal_for_predicate` over a prologue variable
+    NewLitFor(Pred),
     /// post a constraint over the prologue variables
     Post(Con),
     /// post x_newest + x0 <= 2 over the most recently created integer variable
@@ -44,6 +46,7 @@ impl Op {
         match self {
             Op::NewVar(s) => format!("newvar{:?}", s),
             Op::NewLit => "newlit".into(),
+            Op::NewLitFor(p) => format!("newlit_for({p})"),
             Op::Post(c) => format!("post({c})"),
             Op::PostNewest => "post(newest+x0<=2)".into(),
             Op::AddClause(ps) => format!("clause({})", ps.iter().map(|p| p.to_string()).collect::<Vec<_>>().join("|")),
@@ -120,6 +123,9 @@ pub fn alphabet(tier: Tier) -> Vec<Op> {
             Op::Optimise { maximise: false, unsat_sat: true },
             Op::NewVar(vec![-1, 1]),
             Op::Post(Con::LinNe(vec![View::id(0), View::new(1, -1, 0)], 0)),
+            Op::AddClause(vec![p(0, Eq, 0), p(0, Eq, 2)]),
+            Op::AddClause(vec![p(1, Ne, 0), p(0, Ne, 1), p(1, Ne, 2)]),
+            Op::NewLitFor(p(0, Ge, 1)),
         ]);
     }
     a
@@ -161,7 +167,7 @@ impl Property for C10 {
     }
     fn rule(&self, tier: Tier) -> String {
         format!(
-            "All sequences of exactly {} operations over an alphabet of {} API operations (new variable, new literal, post of 14 constraint instances incl. a root-infeasible one and one that fixes a variable at the root, add_clause x5, satisfy, satisfy_under_assumptions x5 with/without core extraction, iterate 1/all solutions, optimise x4) on one solver after a fixed prologue of 4 variables; every prefix of every history is thereby executed. States = distinct history prefixes (no merging: the hidden solver state is what the property is about), transitions = operations extending a prefix. After every operation: no panic, no hang, and the result equals the reference for the model accumulated so far (constraints, clauses, blocking clauses of iterated solutions). A case = one complete history; non-trivial = it contains at least one solve after a model change.",
+            "All sequences of exactly {} operations over an alphabet of {} API operations (new variable, new literal, new literal for a predicate, post of 14 constraint instances incl. a root-infeasible one and one that fixes a variable at the root, add_clause x7, satisfy, satisfy_under_assumptions x5 with/without core extraction, iterate 1/all solutions, optimise x4) on one solver after a fixed prologue of 4 variables; every prefix of every history is thereby executed. States = distinct history prefixes (no merging: the hidden solver state is what the property is about), transitions = operations extending a prefix. After every operation: no panic, no hang, the result equals the reference for the model accumulated so far (constraints, clauses, blocking clauses of iterated solutions), and the root bounds the solver reports for every variable lie in the declared domain and enclose all solutions of the accumulated model. A case = one complete history; non-trivial = it contains at least one solve after a model change.",
             depth(tier),
             alphabet(tier).len()
         )
@@ -219,6 +225,36 @@ fn pred_of(ids: &[DomainId], p: &Pred) -> Predicate {
     to_predicate(ids[p.var], p)
 }
 
+/// Between operations the solver is at the root: the bounds it reports for every variable lie
+/// within the declared domain and enclose the values of all solutions of the accumulated model.
+fn check_root_bounds(solver: &Solver, ids: &[DomainId], r: &Reference, cx: &mut CaseCtx, what: &str) -> bool {
+    if r.reported_infeasible {
+        return true;
+    }
+    let sols = r.solutions();
+    let res = guard(|| ids.iter().map(|id| (solver.lower_bound(id), solver.upper_bound(id))).collect::<Vec<_>>());
+    let bounds = match res {
+        Ok(b) => b,
+        Err(e) => {
+            cx.violation(format!("{}:bounds", panic_sig(&e)), format!("{what}: panic while reading bounds: {e}"));
+            return false;
+        }
+    };
+    cx.acc.count("root_bound_checks", 1);
+    for (i, (lb, ub)) in bounds.iter().enumerate() {
+        let d = &r.vars[i];
+        if *lb < d.lb() || *ub > d.ub() {
+            cx.violation("root-bounds-outside-declared-domain", format!("{what}: x{i} reported as [{lb}, {ub}] but declared {:?}", d.values));
+            return true;
+        }
+        if let Some(w) = sols.iter().find(|s| s[i] < *lb || s[i] > *ub) {
+            cx.violation("root-bounds-exclude-a-solution", format!("{what}: x{i} reported as [{lb}, {ub}] but {w:?} is a solution of the accumulated model"));
+            return true;
+        }
+    }
+    true
+}
+
 pub fn run_history(ops: &[&Op], cx: &mut CaseCtx) {
     verif_tap::configure(Default::default());
     let cfg = Cfg::default_cfg();
@@ -241,6 +277,9 @@ pub fn run_history(ops: &[&Op], cx: &mut CaseCtx) {
     for (step, op) in ops.iter().enumerate() {
         let what = format!("step {step} {}", op.describe());
         cx.acc.count("ops_executed", 1);
+        if step > 0 && !check_root_bounds(&solver, &ids, &r, cx, &format!("before {what}")) {
+            return;
+        }
         match op {
             Op::NewVar(shape) => {
                 if r.reported_infeasible {
@@ -261,16 +300,22 @@ pub fn run_history(ops: &[&Op], cx: &mut CaseCtx) {
                     }
                 }
             }
-            Op::NewLit => {
+            Op::NewLit | Op::NewLitFor(_) => {
                 if r.reported_infeasible {
                     cx.acc.count("ops_skipped_after_infeasible", 1);
                     continue;
                 }
-                let d = VarDecl::lit();
-                match guard(|| new_var(&mut solver, &d, None, &[])) {
+                let d = match op {
+                    Op::NewLitFor(p) => VarDecl::lit_for(*p),
+                    _ => VarDecl::lit(),
+                };
+                match guard(|| new_var(&mut solver, &d, None, &ids)) {
                     Ok((id, l)) => {
                         ids.push(id);
                         lits.push(l);
+                        if d.def.is_some() {
+                            changed_since_solve = true;
+                        }
                         r.vars.push(d);
                     }
                     Err(e) => {
@@ -495,6 +540,7 @@ pub fn run_history(ops: &[&Op], cx: &mut CaseCtx) {
             }
         }
     }
+    let _ = check_root_bounds(&solver, &ids, &r, cx, "after the last step");
     cx.acc.outcome(format!(
         "infeasible={} optimised={}",
         r.reported_infeasible, r.optimised
